@@ -122,11 +122,41 @@ def repo_clean():
     return out.strip() == ""
 
 
-def do_run(names, tier, checks_override=None):
+def make_sandbox(sb):
+    """Relocated copy: <sb>/repo (clone of /repo HEAD) and <sb>/verif (working tree of /verif
+    without build output, every "/repo/" path rewritten).  Lets seeded changes be run without
+    touching /repo; the registered checks themselves always run in /verif against /repo."""
+    if os.path.isdir(sb):
+        shutil.rmtree(sb)
+    os.makedirs(sb)
+    rc, out = sh(["git", "clone", "-q", "/repo", os.path.join(sb, "repo")])
+    if rc != 0:
+        raise RuntimeError(out)
+    rc, out = sh(["rsync", "-a", "--exclude", "target*", "--exclude", "harness/gen", "--exclude", ".git", "--exclude", "replays", "--exclude", "__pycache__", ROOT + "/", os.path.join(sb, "verif") + "/"])
+    if rc != 0:
+        raise RuntimeError(out)
+    newrepo = os.path.join(sb, "repo")
+    for dp, dn, fn in os.walk(os.path.join(sb, "verif")):
+        if "seeded" in dp.split(os.sep):
+            continue
+        for f in fn:
+            if f.endswith((".toml", ".py", ".rs")):
+                path = os.path.join(dp, f)
+                txt = open(path).read()
+                if "/repo" in txt:
+                    open(path, "w").write(txt.replace('"/repo/', '"%s/' % newrepo).replace("=/repo/", "=%s/" % newrepo).replace('REPO = "/repo"', 'REPO = "%s"' % newrepo))
+    return newrepo, os.path.join(sb, "verif")
+
+
+def do_run(names, tier, checks_override=None, sandbox=None):
+    global REPO
+    root = ROOT
+    if sandbox:
+        REPO, root = make_sandbox(sandbox)
     if not repo_clean():
-        print("/repo has uncommitted changes; refusing to run")
+        print("%s has uncommitted changes; refusing to run" % REPO)
         return 2
-    results_path = os.path.join(SEEDED, "RESULTS.json")
+    results_path = os.path.join(SEEDED, "RESULTS%s.json" % ("" if not sandbox else "." + os.path.basename(sandbox)))
     results = json.load(open(results_path)) if os.path.exists(results_path) else {}
     if not names:
         names = sorted(n for n in os.listdir(SEEDED) if os.path.isdir(os.path.join(SEEDED, n)))
@@ -144,7 +174,7 @@ def do_run(names, tier, checks_override=None):
             res = {}
             for c in checks:
                 t0 = time.time()
-                rc, out = sh([os.path.join(ROOT, "run.py"), "check", c, tier], cwd=ROOT, timeout=7200)
+                rc, out = sh([os.path.join(root, "run.py"), "check", c, tier], cwd=root, timeout=7200)
                 sigs = re.findall(r"signature: (.*)", out)
                 caught = rc == 1 and "VIOLATION property=%s" % c in out
                 res[c] = {"rc": rc, "caught": caught, "wall_s": round(time.time() - t0, 1), "signatures": sigs[:6], "inconclusive": re.findall(r"INCONCLUSIVE.*", out)[:2]}
@@ -156,7 +186,9 @@ def do_run(names, tier, checks_override=None):
         with open(results_path, "w") as f:
             json.dump(results, f, indent=1, sort_keys=True)
     if not repo_clean():
-        print("WARNING: /repo not clean after the run")
+        print("WARNING: %s not clean after the run" % REPO)
+    if sandbox:
+        shutil.rmtree(sandbox, ignore_errors=True)
     return rc_all
 
 
@@ -167,10 +199,14 @@ def main(argv):
         tier = "quick"
         names = []
         checks = None
+        sandbox = None
         i = 1
         while i < len(argv):
             if argv[i] == "--tier":
                 tier = argv[i + 1]
+                i += 2
+            elif argv[i] == "--sandbox":
+                sandbox = argv[i + 1]
                 i += 2
             elif argv[i] == "--checks":
                 checks = argv[i + 1].split(",")
@@ -178,7 +214,7 @@ def main(argv):
             else:
                 names.append(argv[i])
                 i += 1
-        return do_run(names, tier, checks)
+        return do_run(names, tier, checks, sandbox)
     print(__doc__)
     return 2
 
